@@ -1172,6 +1172,22 @@ pub fn c08(rec: &mut Rec, lm: &Landmarks, rng: &mut Rng, thorough: bool) {
             }
         }
     }
+    // years at the limits of the machine types (the year count times 365 overflows an i32 beyond +/-5 883 516 years
+    // from 1900; i32::MIN - 1900 does not exist): a value or an error, never a panic
+    for y in [i32::MIN, i32::MIN + 1, i32::MIN + 1899, i32::MIN + 1900, -5_881_617, -5_881_616, -5_881_615, 5_885_415, 5_885_416, 5_885_417, i32::MAX - 1, i32::MAX] {
+        for (k, ts) in [TimeScale::TAI, TimeScale::UTC, TimeScale::GPST].iter().enumerate() {
+            m.rec.episode();
+            let tsv = *ts;
+            let r = crate::rec::with_deadline(20, move || Epoch::maybe_from_gregorian(y, 1 + (k as u8) * 5, 1, 0, 0, 0, 0, tsv).map_err(|_| ()));
+            let res = match &r {
+                Some(Ok(Ok(e))) => jepoch(*e),
+                Some(Ok(Err(_))) => "{\"err\":1}".to_string(),
+                Some(Err(p)) => jpanic(p),
+                None => "{\"hang\":true}".to_string(),
+            };
+            m.rec.ev("from_greg_far", format!("\"ts\":{},\"y\":{},\"res\":{}", ts_idx(tsv), y, res), true);
+        }
+    }
     // the rejection grid: all field combinations around the limits
     let ys: [i32; 9] = [1900, 1972, 2000, 2015, 2016, 2017, 2020, 2023, 2100];
     for &y in &ys {
